@@ -74,10 +74,26 @@ def check(case, stats):
         stats.count([ins, addr], nt, {"op:" + ins[0]}, sample_tag="ins:" + ins[0])
 
 
+def _prog_fields(sim):
+    from vf.ref import asm
+    im = sim.state.instruction_memory
+    return [asm.abstract_of(im.read_instruction(a)) for a, _ in im.get_representation()]
+
+
 def check_listing(case, stats):
     from architecture_simulator.simulation.riscv_simulation import RiscvSimulation
     sim = RiscvSimulation()
-    sim.state.instruction_memory.write_instructions([mk(ins, 4 * i) for i, ins in enumerate(case["prog"])])
+    if case.get("ast") is not None:
+        # a program loaded from SOURCE (labels, label+0xNN operands, pseudo-instructions, data segment): its printed
+        # listing re-assembles to the same listing and to instructions with identical fields
+        from vf.ref import asm
+        src, _ = asm.render(case["ast"], case["tape"])
+        try:
+            sim.load_program(src)
+        except Exception as ex:
+            raise Violation("well-formed-program-rejected", case, f"{type(ex).__name__}: {ex!r}\n{src}")
+    else:
+        sim.state.instruction_memory.write_instructions([mk(ins, 4 * i) for i, ins in enumerate(case["prog"])])
     l1 = sim.get_instruction_memory_entries()
     text = "\n".join(e[1] for e in l1)
     sim2 = RiscvSimulation()
@@ -89,6 +105,13 @@ def check_listing(case, stats):
     if [(e[0], e[1]) for e in l1] != [(e[0], e[1]) for e in l2]:
         d = [(a, b) for a, b in zip(l1, l2) if a[:2] != b[:2]][:3]
         raise Violation("listing-differs", case, f"first differences {d}")
+    f1, f2 = _prog_fields(sim), _prog_fields(sim2)
+    if f1 != f2:
+        d = [(i, a, b) for i, (a, b) in enumerate(zip(f1, f2)) if a != b][:3]
+        raise Violation("listing-reassembles-to-other-fields", case, f"(index, loaded program, re-assembled listing) {d}\n{text}")
+    if case.get("ast") is not None:
+        stats.count(case, len(f1) >= 3, {"listing-from-source"}, sample_tag="listing-from-source")
+        return
     stats.count(case, len(case["prog"]) >= 3, {"listing"}, sample_tag="listing")
 
 
@@ -210,3 +233,18 @@ def run_shard(item, stats):
                         shrink=not item.get("min_pad"))
     else:
         core.hyp_search(listing_case(), check, stats, item["n"], item["seed"], km)
+        # deterministic: every label operand form of jal / branches (label, label+0xNN forwards and backwards)
+        det = []
+        for off in (None, 4, 8, 0x10):
+            for back in (False, True):
+                nop = {"ins": ["addi", 0, 0, 0], "inline": None, "form": 0}
+                body = [dict(nop) for _ in range(6)]
+                jal = {"ins": ["jal", 1, {"label": "tgt", "off": off}], "inline": None, "form": 0}
+                br = {"ins": ["bne", 1, 2, {"label": "tgt", "off": None}], "inline": None, "form": 0}
+                textitems = ([{"label": "tgt"}] + body + [jal, br]) if back else ([jal, br, {"label": "tgt"}] + body)
+                det.append({"kind": "listing", "tape": [off or 0, int(back), 1],
+                            "ast": {"data": [], "data_first": False, "text_directive": False, "text": textitems}})
+        core.run_cases(det, check, stats, km)
+        from vf.props import c04
+        core.hyp_search(c04.case_strategy(14).map(lambda c: {"kind": "listing", "ast": c["ast"], "tape": c["tape"]}), check, stats,
+                        max(50, item["n"] // 3), item["seed"] + 7, km)
